@@ -70,6 +70,10 @@ func scenarioPinFault() int {
 				why = fmt.Sprintf("%d Via entries sent, %d relayed (exactly one more is required)", len(inV), len(outV))
 			case len(outRR) > len(inRR)+1:
 				why = fmt.Sprintf("Record-Route list grew from %d to %d entries", len(inRR), len(outRR))
+			case (sv.MustRR || len(inRR) > 0) && len(outRR) != len(inRR)+1:
+				why = fmt.Sprintf("the request carries %d Record-Route entries (listener always records: %v) and was handed on with %d: the listener's own entry is required", len(inRR), sv.MustRR, len(outRR))
+			case (sv.MustRR || len(inRR) > 0) && !(strings.Contains(outRR[0], sv.IP) && strings.Contains(strings.ToLower(outRR[0]), ";lr")):
+				why = "the first Record-Route entry is not the listener's <sip:address:port;lr>"
 			case !sv.MustRR && len(inRR) == 0 && len(outRR) != 0:
 				why = "Record-Route entry added although neither policy nor an existing entry asks for it"
 			default:
